@@ -54,16 +54,26 @@ def formulas(tier):
     return out
 
 
+def family_formulas(step):
+    """every step-th formula of the C03 base family (all ordered families of <= 3 terms over f, g, h, x)"""
+    from vf.props import c03
+
+    base, _ = c03.families("quick")
+    return [c03.formula_of(fam, ic) for i, (fam, ic) in enumerate(base) if i % step == 0]
+
+
 def cases(tier):
     fl = formulas(tier)
+    if tier != "quick":
+        fl = fl + family_formulas(1)
     flav = ["str", "cat", "ord"]
     orders = ["sorted", "reversed", "scramble"]
     out = []
     for i, f in enumerate(fl):
         for fv in flav:
             for o in orders:
-                if tier == "quick" and (i + flav.index(fv) + orders.index(o)) % 3 != 0:
-                    continue  # quick: each formula with 3 of the 9 (flavour, order) combinations
+                if (tier == "quick" or i >= len(formulas(tier))) and (i + flav.index(fv) + orders.index(o)) % 3 != 0:
+                    continue  # quick (and the large family of the thorough tier): each formula with 3 of the 9 (flavour, order) combinations
                 out.append((f, fv, o))
     return out
 
